@@ -109,7 +109,7 @@ func checkC06(rep *vk.Report) {
 func c06Round(rep *vk.Report, idx int) {
 	r := vk.Rng(rep.Seed, "C06", idx)
 	cs := c06Case{Cap: vk.Pick(r, 1, 2, 3, 5), MaxWait: vk.Pick(r, int64(0), 200e3, 5e6, 20e6),
-		Comp: vk.Pick(r, "bh", "bh", "retry(bh)", "timeout(bh)", "bh(timeout)", "hedge(bh)", "fallback(bh)"), Iters: 6 + r.IntN(10)}
+		Comp: vk.Pick(r, "bh", "bh", "retry(bh)", "timeout(bh)", "bh(timeout)", "hedge(bh)", "fallback(bh)", "bh(bh2)"), Iters: 6 + r.IntN(10)}
 	cs.Workers = cs.Cap + 2 + r.IntN(40)
 	var onFull atomic.Int64
 	bh := bulkhead.Builder[int](uint(cs.Cap)).WithMaxWaitTime(time.Duration(cs.MaxWait)).OnFull(func(failsafe.ExecutionEvent[int]) { onFull.Add(1) }).Build()
@@ -127,6 +127,11 @@ func c06Round(rep *vk.Report, idx int) {
 		pols = []failsafe.Policy[int]{hedgepolicy.BuilderWithDelay[int](500 * time.Microsecond).WithMaxHedges(1).Build(), bh}
 	case "fallback(bh)":
 		pols = []failsafe.Policy[int]{fallback.WithResult[int](-1), bh}
+	case "bh(bh2)":
+		// a second, smaller bulkhead inside: executions admitted by the outer one are often refused by the inner one with
+		// ErrFull - an outcome like any other for the outer bulkhead, which must still get its permit back
+		inner := bulkhead.Builder[int](1).WithMaxWaitTime(time.Duration(cs.MaxWait) / 4).Build()
+		pols = []failsafe.Policy[int]{bh, inner}
 	}
 	var shadow, inFn, maxShadow atomic.Int64
 	var bad atomic.Pointer[string]
